@@ -151,7 +151,7 @@ pub struct QueryCase {
 }
 
 pub fn query_strategy() -> BoxedStrategy<QueryCase> {
-    (strs::endpoint_string(), any::<bool>()).prop_map(|(endpoint, via_http)| QueryCase { endpoint, via_http }).boxed()
+    (strs::endpoint_string(), prop::bool::weighted(0.8)).prop_map(|(endpoint, via_http)| QueryCase { endpoint, via_http }).boxed()
 }
 
 /// what validate_endpoint documents and does: non-empty, ≤ 1000 bytes, alphanumerics and `/ _ - .`
@@ -216,7 +216,7 @@ fn check_query_inner(c: &QueryCase, known: &Arc<Known>) -> Verdict {
         "C20:ribbit-query:endpoint-outside-whitelist-touches-files-outside-cache-dir".to_string()
     };
     let rt = rt();
-    let port = match rt.block_on(mock::start(mock::BPSV.as_bytes().to_vec(), format!("{}\n", mock::BPSV).into_bytes())) {
+    let port = match mock::ribbit_port() {
         Ok(p) => p,
         Err(e) => {
             infra(format!("mock: {e}"));
@@ -488,8 +488,7 @@ fn check_cdn_inner(c: &CdnCase, known: &Arc<Known>) -> Verdict {
     let outside = target.as_ref().map(|t| !sb.is_under_root(t)).unwrap_or(false);
     j.class_if(outside, "denotes-path-outside-root");
     let rt = rt();
-    let body = b"MOCK-CDN-BODY".to_vec();
-    let port = match rt.block_on(mock::start(body.clone(), body.clone())) {
+    let port = match mock::cdn_port() {
         Ok(p) => p,
         Err(e) => {
             infra(format!("mock: {e}"));
